@@ -276,6 +276,131 @@ fn stats_strategy() -> BoxedStrategy<StatsCase> {
         .boxed()
 }
 
+// ------------------------------------------------------------------------------------------------
+// large logs: multi-byte characters at every alignment relative to I/O buffer boundaries
+
+#[derive(Debug, Clone, Serialize, Deserialize, PartialEq, Eq, Hash)]
+pub struct BigCase {
+    pub pad: usize,
+    pub unit: String,
+    pub reps: usize,
+    pub records: usize,
+    pub sessions: usize,
+}
+
+pub fn test_big(c: &BigCase, ctx: &mut CaseCtx) -> Result<(), String> {
+    let mut seed = 7u64;
+    let mk = |i: usize, seed: &mut u64| {
+        *seed = crate::core::mix(*seed, i as u64);
+        Record {
+            kind: RecordKind::Lint {
+                kind: KINDS[i % KINDS.len()],
+                context: vec![FatStringToken {
+                    content: format!("{}{}", "a".repeat(c.pad + i), c.unit.repeat(c.reps)),
+                    kind: TokenKind::Unlintable,
+                }],
+            },
+            when: i as i64,
+            uuid: uuid::Uuid::from_u64_pair(*seed, i as u64),
+        }
+    };
+    let sessions: Vec<Vec<Record>> = (0..c.sessions.max(1))
+        .map(|s| (0..c.records.max(1)).map(|i| mk(s * 100 + i, &mut seed)).collect())
+        .collect();
+    let all: Vec<Record> = sessions.iter().flatten().cloned().collect();
+    let mut log = vec![];
+    for s in &sessions {
+        Stats { records: s.clone() }.write(&mut log).map_err(|e| e.to_string())?;
+    }
+    ctx.class_if(log.len() > 8192, "log_over_8KiB");
+    ctx.class_if(log.len() > 65536, "log_over_64KiB");
+    if log.len() > 8192 && !c.unit.is_ascii() {
+        ctx.nontrivial(c);
+    }
+    let back = Stats::read(&mut log.as_slice()).map_err(|e| format!("read failed on a {}-byte log: {e}", log.len()))?;
+    if back.records != all {
+        let i = back.records.iter().zip(&all).position(|(a, b)| a != b).unwrap_or(0);
+        return Err(format!(
+            "a {}-byte log of {} records (context = {} x {:?} after {} ASCII chars) reads back differently; first difference at record {i}",
+            log.len(), all.len(), c.reps, c.unit, c.pad
+        ));
+    }
+    Ok(())
+}
+
+// ------------------------------------------------------------------------------------------------
+// the language server's statistics file: every recorded lint exactly once, append after append
+
+#[derive(Debug, Clone, Serialize, Deserialize, PartialEq, Eq, Hash)]
+pub struct LsStatsCase {
+    /// sessions of steps: Some(kind index) = HarperRecordLint, None = didChangeConfiguration
+    pub sessions: Vec<Vec<Option<u8>>>,
+}
+
+pub fn test_ls_stats(c: &LsStatsCase, ctx: &mut CaseCtx) -> Result<(), String> {
+    use crate::lsp::{Sandbox, Server};
+    use serde_json::json;
+    let r = (|| -> Result<Result<(), String>, crate::lsp::LspError> {
+        let sb = Sandbox::new("c19");
+        let mut sent: Vec<LintKind> = vec![];
+        let mut config_changes = 0;
+        for steps in &c.sessions {
+            let mut srv = Server::start(&sb, sb.settings(json!({})), None)?;
+            for st in steps {
+                match st {
+                    Some(k) => {
+                        let kind = KINDS[*k as usize % KINDS.len()];
+                        let rk = RecordKind::Lint {
+                            kind,
+                            context: vec![FatStringToken { content: format!("wörd{k}\n\"q\""), kind: TokenKind::Word(None) }],
+                        };
+                        srv.execute("HarperRecordLint", json!([serde_json::to_string(&rk).unwrap()]))?;
+                        sent.push(kind);
+                    }
+                    None => {
+                        config_changes += 1;
+                        let settings = sb.settings(json!({"diagnosticSeverity": if config_changes % 2 == 0 { "hint" } else { "warning" }}));
+                        srv.settings = settings.clone();
+                        srv.notify("workspace/didChangeConfiguration", json!({"settings": settings}))?;
+                        // make sure the notification was processed before going on
+                        srv.execute("HarperRecordLint", json!(["not a record"]))?;
+                    }
+                }
+            }
+            srv.shutdown()?;
+        }
+        let bytes = std::fs::read(sb.stats()).unwrap_or_default();
+        let stats = match Stats::read(&mut bytes.as_slice()) {
+            Ok(s) => s,
+            Err(e) => return Ok(Err(format!("the statistics file written by harper-ls cannot be read back: {e}"))),
+        };
+        let got: Vec<LintKind> = stats.records.iter().filter_map(|r| match &r.kind { RecordKind::Lint { kind, .. } => Some(*kind), _ => None }).collect();
+        ctx.class_if(config_changes > 0 && !sent.is_empty(), "config_change_between_records");
+        ctx.class_if(c.sessions.len() >= 2, "two_sessions");
+        if sent.len() >= 2 && (config_changes > 0 || c.sessions.len() >= 2) {
+            ctx.nontrivial(c);
+        }
+        if got != sent {
+            return Ok(Err(format!(
+                "{} lints were recorded over {} sessions ({} configuration changes) but the statistics file holds {} lint records: recorded {:?}, file {:?}",
+                sent.len(), c.sessions.len(), config_changes, got.len(), sent, got
+            )));
+        }
+        let summary = stats.summarize();
+        if summary.total_applied as usize != sent.len() {
+            return Ok(Err(format!("summary counts {} applied lints, {} were recorded", summary.total_applied, sent.len())));
+        }
+        Ok(Ok(()))
+    })();
+    match r {
+        Ok(r) => r,
+        Err(e) => {
+            ctx.infra(e);
+            Ok(())
+        }
+    }
+}
+
 pub fn run(run: &mut Run) {
     run.rule = "histories of 1-4 append sessions of 0-4 record specs: synthetic lint records whose context tokens are arbitrary-Unicode Unlintable tokens (newline, CR, U+2028/2029, NEL, quotes, backslashes, controls, astral) or the real tokens harper lexes from generated words/sentences/number literals; all lints of a generated document via RecordKind::from_lint; configuration-update records from G-CONFIG; arbitrary timestamps and uuids. Oracle: exactly one line feed per record, read(write(a)++write(b)) == a++b, write is a homomorphism over concatenation, summary = reference fold. Non-trivial = a context contains a line-break-like or control char and there are >=2 sessions; distinct by case.".into();
     if !run.strict && run.known.get(KF_NONFINITE).is_some() {
@@ -294,9 +419,60 @@ pub fn run(run: &mut Run) {
     run.require_class("append_sessions", "linebreak_or_control_in_context", (n / 4) as u64);
     run.require_class("append_sessions", "multi_session", (n / 3) as u64);
     run.require_class("append_sessions", "has_config_record", (n / 5) as u64);
+
+    let n = run.n(400, 20_000);
+    run.prop(
+        "large_logs",
+        n,
+        || {
+            (0usize..40, g::sel_str(&["𝄞", "é", "中", "😀", "a\u{301}", "\u{2028}", "𝄞é", "x"]), prop_oneof![Just(700usize), 200usize..3000], 1usize..6, 1usize..4)
+                .prop_map(|(pad, unit, reps, records, sessions)| BigCase { pad, unit, reps, records, sessions })
+                .boxed()
+        },
+        test_big,
+    );
+    run.require_class("large_logs", "log_over_8KiB", (n / 2) as u64);
+
+    if crate::lsp::ls_binary().exists() {
+        let n = run.n(40, 1_000);
+        let saved = (run.threads, run.max_shrink_iters);
+        run.threads = run.threads.min(8);
+        run.max_shrink_iters = 60;
+        run.prop(
+            "language_server_statistics_file",
+            n,
+            || {
+                proptest::collection::vec(
+                    proptest::collection::vec(prop_oneof![3 => (0u8..10).prop_map(Some), 1 => Just(None)], 0..6),
+                    1..4,
+                )
+                .prop_map(|sessions| LsStatsCase { sessions })
+                .boxed()
+            },
+            test_ls_stats,
+        );
+        (run.threads, run.max_shrink_iters) = saved;
+        run.require_class("language_server_statistics_file", "config_change_between_records", (n / 4) as u64);
+        run.require_class("language_server_statistics_file", "two_sessions", (n / 3) as u64);
+    } else {
+        run.infra_problems.push("harper-ls binary not built: language_server_statistics_file skipped".into());
+    }
 }
 
-pub fn replay(_check: &str, case: Value, run: &mut Run) -> Result<(), String> {
+pub fn replay(check: &str, case: Value, run: &mut Run) -> Result<(), String> {
+    if check == "large_logs" {
+        let c: BigCase = serde_json::from_value(case).map_err(|e| e.to_string())?;
+        return test_big(&c, &mut CaseCtx::default());
+    }
+    if check == "language_server_statistics_file" {
+        let c: LsStatsCase = serde_json::from_value(case).map_err(|e| e.to_string())?;
+        let mut ctx = CaseCtx::default();
+        let r = test_ls_stats(&c, &mut ctx);
+        if let Some(i) = ctx.classes.iter().find(|c| c.starts_with("INFRA")) {
+            return Err(format!("infrastructure problem during replay: {i}"));
+        }
+        return r;
+    }
     let c: StatsCase = serde_json::from_value(case).map_err(|e| e.to_string())?;
     let mut ctx = CaseCtx::default();
     let r = test_stats(&c, &mut ctx);
